@@ -1279,20 +1279,17 @@ class Driver(object, metaclass=DriverMetaclass):
                 if meta['equals'] is not None:
                     con_val -= meta['equals']
                 else:
-                    lower_viol_idxs = np.where(con_val < meta['lower'])[0]
-                    upper_viol_idxs = np.where(con_val > meta['upper'])[0]
-                    non_viol_idxs = np.where((con_val >= meta['lower'])
-                                             & (con_val <= meta['upper']))[0]
-                    con_val[lower_viol_idxs] -= meta['lower']
-                    con_val[upper_viol_idxs] -=  meta['upper']
-                    con_val[non_viol_idxs] = 0.0
+                    # lower and upper may be scalars or arrays: compare element by element
+                    lower = np.broadcast_to(meta['lower'], con_val.shape)
+                    upper = np.broadcast_to(meta['upper'], con_val.shape)
+                    con_val[:] = np.where(con_val < lower, con_val - lower,
+                                          np.where(con_val > upper, con_val - upper, 0.0))
+
+                # A violation is a distance: scale it by the scaler only (no adder).
+                if driver_scaling and meta['total_scaler'] is not None:
+                    con_val *= meta['total_scaler']
 
             con_dict[name] = con_vec[name].copy()
-
-        # If we computed violations, those were unscaled.
-        # Now scale them.
-        if driver_scaling and viol:
-            self._autoscaler.apply_constraint_scaling(con_vec)
 
         return con_dict
 
@@ -2457,9 +2454,6 @@ class Driver(object, metaclass=DriverMetaclass):
                                   tr_options=tr_options or {},
                                   jac=jacfun)
 
-        if self._exc_info is not None:
-            self._reraise()
-
         if iprint == 2:
             print()
             print('-------------------------')
@@ -2484,6 +2478,12 @@ class Driver(object, metaclass=DriverMetaclass):
             with SaveOptResult(self):
                 res = f_lsq()
                 self.result.success = res.success and res.cost <= loss_tol
+
+        # If an exception was swallowed in one of our callbacks, raise it now rather than
+        # reporting a result computed from the placeholder values the callback returned.
+        if self._exc_info is not None:
+            self._in_find_feasible = False
+            self._reraise()
 
         if iprint >= 1:
             if res.success:
